@@ -400,6 +400,110 @@ def stream_ftp(ctx, n):
         ctx.sample(first)
 
 
+# ------------------------------------------------------------------ ftp processor (per-URL handler level)
+class _StubTable:
+    def __init__(self):
+        self.calls = []
+
+    def get_hostnames(self):
+        return ['a.test']
+
+    def check_in(self, url, status, **kw):
+        self.calls.append(('check_in', url, status.value))
+
+    def add_many(self, *a, **k):
+        self.calls.append(('add_many',))
+
+    def update_one(self, *a, **k):
+        pass
+
+    def remove_many(self, *a, **k):
+        pass
+
+
+def ftp_proc_once(plan, data, url, glob_on, preserve, seed):
+    """The REAL FTPProcessor.process(item) (file-vs-directory probe of the parent, glob listing, fetch,
+    permission probe) against a hostile FTP server.  Nothing may leave process(): it runs directly under
+    the pipeline worker."""
+    import os
+    import shutil
+    import tempfile
+    import types
+    from wpull.network.pool import ConnectionPool
+    from wpull.pipeline.item import URLRecord
+    from wpull.pipeline.session import ItemSession
+    from wpull.processor.ftp import FTPProcessor, FTPProcessorFetchParams
+    from wpull.processor.rule import FetchRule, ResultRule
+    from wpull.protocol.ftp.client import Client
+    from wpull.stats import Statistics
+    from wpull.waiter import LinearWaiter
+    from wpull.writer import NullWriter
+
+    async def go(tmp):
+        net = fakenet.FakeNet()
+        rng = random.Random(seed)
+        net.listen('10.0.0.1', 21, lambda: HostileFtp(rng, plan))
+        net.default = lambda: HostileData(data)
+        with net:
+            pool = ConnectionPool(resolver=fakenet.FakeResolver())
+            client = Client(connection_pool=pool)
+            table = _StubTable()
+            from wpull.urlfilter import DemuxURLFilter
+            factory = {'FileWriter': NullWriter(), 'FetchRule': FetchRule(url_filter=DemuxURLFilter([])),
+                       'ResultRule': ResultRule(waiter=LinearWaiter(wait=0, max_wait=0), statistics=Statistics()),
+                       'URLTable': table}
+            r = URLRecord()
+            r.url, r.parent_url, r.root_url, r.level, r.inline_level, r.try_count = url, None, None, 0, None, 0
+            r.post_data = r.status_code = r.filename = None
+            r.priority = 0
+            r.link_type = None
+            item = ItemSession(types.SimpleNamespace(factory=factory, root_path=tmp), r)
+            proc = FTPProcessor(client, FTPProcessorFetchParams(glob=glob_on, preserve_permissions=preserve))
+            task = asyncio.ensure_future(compat._ensure(proc.process(item)))
+            done = await fakenet.settle(task, [], extra=400)
+            if not done:
+                task.cancel()
+                try:
+                    await task
+                except BaseException:
+                    pass
+                return 'stalled'
+            try:
+                task.result()
+                return None
+            except Exception as e:  # noqa
+                return e
+    tmp = tempfile.mkdtemp(prefix='wpull-verif-c09-')
+    cwd = os.getcwd()
+    os.chdir(tmp)
+    try:
+        return compat.run(go(tmp))
+    finally:
+        os.chdir(cwd)
+        shutil.rmtree(tmp, ignore_errors=True)
+
+
+def stream_ftp_proc(ctx, n):
+    rng = ctx.rng
+    first = None
+    for _ in range(n):
+        url = rng.choice(['ftp://a.test/dir/f.txt', 'ftp://a.test/dir/f.txt', 'ftp://a.test/dir/', 'ftp://a.test/dir/*.txt',
+                          'ftp://a.test/f', 'ftp://u:p@a.test/dir/sub/f.bin'])
+        plan, data, mlsd = gen_ftp_plan(rng, True)
+        glob_on, preserve = rng.random() < 0.7, rng.random() < 0.5
+        seed = rng.randrange(1 << 30)
+        case = {'stream': 'ftp-proc', 'plan': plan, 'data': data, 'url': url, 'glob': glob_on, 'preserve': preserve, 'seed': seed}
+        first = first or case
+        r = ftp_proc_once(plan, data, url, glob_on, preserve, seed)
+        tag = 'ok' if r is None else r if isinstance(r, str) else type(r).__name__
+        ctx.case(('ftp-proc', json.dumps({k: v.hex() for k, v in plan.items()}, sort_keys=True), data, url), tags=['ftp-proc:' + tag])
+        if isinstance(r, Exception):
+            cls, where = classify(r)
+            ctx.fail(cls, where, case, 'FTPProcessor.process raised %r: nothing above it turns that into a per-URL failure' % r)
+    if first:
+        ctx.sample(first)
+
+
 # ------------------------------------------------------------------ entry points
 def replay(ctx, case, kind=None, where=None):
     s = case.get('stream')
@@ -425,6 +529,12 @@ def replay(ctx, case, kind=None, where=None):
         if isinstance(r, Exception) and not isinstance(r, remote_errors()):
             cls, w = classify(r)
             ctx.fail(cls, w, case, 'ftp session raised %r' % r)
+    elif s == 'ftp-proc':
+        ctx.case(('ftp-proc', case['seed']))
+        r = ftp_proc_once(case['plan'], case['data'], case['url'], case['glob'], case['preserve'], case['seed'])
+        if isinstance(r, Exception):
+            cls, w = classify(r)
+            ctx.fail(cls, w, case, 'FTPProcessor.process raised %r' % r)
     elif s == 'static':
         run_static(ctx)
 
@@ -454,6 +564,7 @@ def run(ctx):
     stream_http(ctx, ctx.scale(1200, 15000))
     stream_http(ctx, ctx.scale(400, 5000), robots=True)
     stream_ftp(ctx, ctx.scale(1200, 15000))
+    stream_ftp_proc(ctx, ctx.scale(500, 8000))
     stream_e2e(ctx, ctx.scale(100, 1200))
 
 
